@@ -128,6 +128,125 @@ theorem scan_single (a k v b : Str) (ha : '{' ∉ a) (hk : '}' ∉ k) (hv : '}' 
     rw [e, hl, scan_skip, scan_quiet b hb]
   rw [hs]
 
+
+/-! ### A'. what `sub` can remove and what the callback can see, for EVERY text -/
+
+/-- the text that comes back is the text with pieces cut out: nothing is added, nothing reordered -/
+theorem scan_sublist : ∀ (s : Str) (n : Nat), List.Sublist (scan n s).1 s
+  | [], n => by cases n <;> exact List.Sublist.slnil
+  | c :: r, n + 1 => by
+    simp only [scan]
+    exact (scan_sublist r n).cons c
+  | c :: r, 0 => by
+    simp only [scan]
+    split
+    · exact (scan_sublist r _).cons c
+    · exact (scan_sublist r 0).cons₂ c
+
+theorem runNotBrace_spec : ∀ s : Str, '}' ∉ (runNotBrace s).1 ∧ (runNotBrace s).1 ++ (runNotBrace s).2 = s
+  | [] => ⟨by simp [runNotBrace], rfl⟩
+  | c :: r => by
+    simp only [runNotBrace]
+    split
+    · exact ⟨by simp, rfl⟩
+    · rename_i hc
+      obtain ⟨h1, h2⟩ := runNotBrace_spec r
+      refine ⟨?_, by simp only [List.cons_append, h2]⟩
+      intro m
+      rcases List.mem_cons.mp m with e | m
+      · exact hc e.symm
+      · exact h1 m
+
+theorem splitLastEq_spec : ∀ (s a b : Str), splitLastEq s = some (a, b) → s = a ++ '=' :: b ∧ '=' ∉ b
+  | [], a, b, h => by simp [splitLastEq] at h
+  | c :: r, a, b, h => by
+    simp only [splitLastEq] at h
+    cases hr : splitLastEq r with
+    | some p =>
+      obtain ⟨a', b'⟩ := p
+      rw [hr] at h
+      simp only [Option.some.injEq, Prod.mk.injEq] at h
+      obtain ⟨e1, e2⟩ := splitLastEq_spec r a' b' hr
+      obtain ⟨ha, hb⟩ := h
+      subst ha; subst hb
+      exact ⟨by simp only [List.cons_append, ← e1], e2⟩
+    | none =>
+      rw [hr] at h
+      simp only at h
+      split at h
+      · rename_i hc
+        simp only [Option.some.injEq, Prod.mk.injEq] at h
+        obtain ⟨ha, hb⟩ := h
+        subst ha; subst hb; subst hc
+        refine ⟨rfl, ?_⟩
+        intro m
+        -- `splitLastEq r = none` means no `=` in `r`
+        have : ∀ t : Str, splitLastEq t = none → '=' ∉ t := by
+          intro t
+          induction t with
+          | nil => intro _ m; cases m
+          | cons d t ih =>
+            intro ht m
+            simp only [splitLastEq] at ht
+            cases h2 : splitLastEq t with
+            | some q => rw [h2] at ht; simp at ht
+            | none =>
+              rw [h2] at ht
+              simp only at ht
+              split at ht
+              · cases ht
+              · rename_i hd
+                rcases List.mem_cons.mp m with e | m
+                · exact hd e.symm
+                · exact ih h2 m
+        exact this r hr m
+      · cases h
+
+/-- a match of `ATTR_RE`: the text is `{@key=value}rest`, no `}` in key and value, no `=` in the value -/
+theorem matchAt_spec (s k v rest : Str) (h : matchAt s = some (k, v, rest)) :
+    s = '{' :: '@' :: (k ++ '=' :: v ++ '}' :: rest) ∧ '}' ∉ k ∧ '}' ∉ v ∧ '=' ∉ v := by
+  unfold matchAt at h
+  split at h
+  · rename_i r
+    obtain ⟨h1, h2⟩ := runNotBrace_spec r
+    simp only at h
+    split at h
+    · rename_i rest' hp
+      cases hs : splitLastEq (runNotBrace r).1 with
+      | none => rw [hs] at h; simp at h
+      | some kv =>
+        rw [hs] at h
+        simp only [Option.map_some, Option.some.injEq, Prod.mk.injEq] at h
+        obtain ⟨e1, e2⟩ := splitLastEq_spec _ kv.1 kv.2 hs
+        obtain ⟨hk, hv, hr⟩ := h
+        subst hk; subst hv; subst hr
+        have hrun : '}' ∉ kv.1 ++ '=' :: kv.2 := e1 ▸ h1
+        refine ⟨?_, ?_, ?_, e2⟩
+        · rw [hp] at h2
+          rw [← h2, e1]
+        · intro m; exact hrun (List.mem_append_left _ m)
+        · intro m; exact hrun (List.mem_append_right _ (List.mem_cons_of_mem _ m))
+    · cases h
+  · cases h
+
+/-- whatever the text: every `(key, value)` the callback sees has no `}` in key and value and no `=` in the value -/
+theorem scan_pairs_wf : ∀ (s : Str) (n : Nat) (kv : Str × Str), kv ∈ (scan n s).2 →
+    '}' ∉ kv.1 ∧ '}' ∉ kv.2 ∧ '=' ∉ kv.2
+  | [], n, kv, h => by cases n <;> simp [scan] at h
+  | c :: r, n + 1, kv, h => by
+    simp only [scan] at h
+    exact scan_pairs_wf r n kv h
+  | c :: r, 0, kv, h => by
+    simp only [scan] at h
+    split at h
+    · rename_i key val rest hm
+      rcases List.mem_cons.mp h with e | h
+      · obtain ⟨_, a, b, c'⟩ := matchAt_spec _ _ _ _ hm
+        subst e
+        exact ⟨a, b, c'⟩
+      · exact scan_pairs_wf r _ kv h
+    · exact scan_pairs_wf r 0 kv h
+
 /-! ### B. `handle` and `step` -/
 
 /-- everything but the attributes is the same -/
